@@ -25,7 +25,13 @@ META = dict(
          "kex engine, host key type, ciphers, MACs and compression are compared with an independent first-match "
          "oracle fed only with the two KEXINITs as advertised, plus the local disabled sets. A sample of full "
          "handshakes and rekeys over the in-memory link repeats the comparison on both live peers from their wire "
-         "taps. Holds on the executions produced; not all configurations.",
+         "taps. Re-exchanges with CHANGED preferences: after a finished exchange one or both peers assign new "
+         "tuples through Transport.get_security_options() (reordered, narrowed, replaced-but-overlapping, disjoint) "
+         "in 1-3 categories and re-key 1-3 times (threadless, and live with either side initiating and channel "
+         "traffic after every exchange); every exchange is judged against the KEXINITs of THAT exchange, the fields "
+         "are re-read when each peer activates its keys, the cipher/MAC parameters handed to the packetizer and the "
+         "host key/signature in the server's kex reply are compared with the negotiated algorithms. "
+         "Holds on the executions produced; not all configurations.",
     note="Trusts the struct-based KEXINIT parser and the 10-line first-match oracle. GSS-API kex names are only used "
          "as foreign names (no GSS context on the image). disabled_algorithms values are members of the preference "
          "tuples, as the constructor documents.",
@@ -121,6 +127,7 @@ class Cfg:
         if rng.random() < 0.2:
             self.disabled["pubkeys"] = rng.sample(KNOWN["keys"], 2)  # irrelevant to host keys
         self.strict = rng.random() < 0.7
+        self.changes = []  # preference changes applied between exchanges (per round)
         self.key_names = []
         self.pack = False
         if role == "server":
@@ -138,8 +145,11 @@ class Cfg:
             self.pack = rng.random() < 0.5
 
     def describe(self):
-        return dict(role=self.role, prefs=self.prefs, disabled=self.disabled, strict_kex=self.strict,
-                    host_keys=self.key_names, modulus_pack=self.pack)
+        d = dict(role=self.role, prefs=self.prefs, disabled=self.disabled, strict_kex=self.strict,
+                 host_keys=self.key_names, modulus_pack=self.pack)
+        if self.changes:
+            d["preference_changes_per_round"] = self.changes
+        return d
 
     def kwargs(self):
         return dict(disabled_algorithms={k: list(v) for k, v in self.disabled.items()}, strict_kex=self.strict)
@@ -389,14 +399,119 @@ def stratum_honest(ctx, n):
         ok1 = judge(ctx, "client", cc, craw, sraw, csnap, cexc, "pair")
         ok2 = judge(ctx, "server", sc, sraw, craw, ssnap, sexc, "pair")
         agree_check(ctx, ok1 and ok2, csnap, cexc, ssnap, sexc, dict(client=cc.describe(), server=sc.describe()))
-        # a second negotiation on the same transports (what a rekey does)
-        if csnap is not None and ssnap is not None and rng.random() < 0.2:
+        # further negotiations on the same transports (what a rekey does), unchanged or with
+        # preferences changed through the public SecurityOptions API in between
+        prev = (craw, sraw, csnap, ssnap)
+        for rnd in range(rng.choice((0, 0, 1, 1, 2, 3)) if csnap is not None and ssnap is not None else 0):
+            pc, ps, pcs, pss = prev
+            for t in (tc, ts):  # the state _finish_kex leaves behind
+                t.local_kex_init = t.remote_kex_init = None
+                t.kex_engine = None
+                t.K = None
+                t.initial_kex_done = True
+            changes = []
+            if rng.random() < 0.8:
+                cki, ski = negotiate.parse_kexinit(pc), negotiate.parse_kexinit(ps)
+                ckinds, skinds = pick_kinds(rng, rng.choice(("c", "s", "cs")))
+                changes += change_prefs(ctx, rng, tc, cc, cki, ski, pcs, "client", ckinds)
+                changes += change_prefs(ctx, rng, ts, sc, ski, cki, pss, "server", skinds)
             craw2, sraw2 = advertise(tc), advertise(ts)
             csnap2, cexc2 = negotiate_threadless(tc, sraw2)
             ssnap2, sexc2 = negotiate_threadless(ts, craw2)
             ctx.count("renegotiations_threadless")
-            judge(ctx, "client", cc, craw2, sraw2, csnap2, cexc2, "pair")
-            judge(ctx, "server", sc, sraw2, craw2, ssnap2, sexc2, "pair")
+            if changes:
+                ctx.count("renegotiations_threadless_after_pref_change")
+            cc.changes.append(changes)
+            sc.changes.append(changes)
+            ctx.case(fp("re-pair", craw2, sraw2) + (rnd, repr(changes)))
+            ok1 = judge(ctx, "client", cc, craw2, sraw2, csnap2, cexc2, "repair")
+            ok2 = judge(ctx, "server", sc, sraw2, craw2, ssnap2, sexc2, "repair")
+            agree_check(ctx, ok1 and ok2, csnap2, cexc2, ssnap2, sexc2, dict(client=cc.describe(), server=sc.describe()))
+            if csnap2 is None or ssnap2 is None:
+                break
+            for cat in CATS:
+                if csnap2[cat] != pcs[cat]:
+                    ctx.count("reexchange_agreement_changed_%s" % cat)
+            prev = (craw2, sraw2, csnap2, ssnap2)
+
+
+
+# ---------------------------------------------------------------------------
+# preference changes between exchanges (public API: Transport.get_security_options())
+
+SECOPT_ATTR = dict(kex="kex", keys="key_types", ciphers="ciphers", macs="digests", compression="compression")
+KIND_FIELD = dict(kex="kex", keys="key", ciphers="c2s_cipher", macs="c2s_mac", compression="c2s_comp")
+
+
+def pick_kinds(rng, who):
+    """Categories each side changes; when both sides change, they change different categories (each
+    bridges to what the other advertised last time)."""
+    kinds = list(SECOPT_ATTR)
+    rng.shuffle(kinds)
+    nc = rng.choice((1, 1, 2, 2, 3)) if "c" in who else 0
+    ns = rng.choice((1, 1, 2, 2, 3)) if "s" in who else 0
+    if nc + ns > len(kinds):
+        ns = len(kinds) - nc
+    return kinds[:nc], kinds[nc:nc + ns]
+
+
+def change_prefs(ctx, rng, t, cfg, own_ki, peer_ki, agreed, side, kinds):
+    """Assign new preference tuples in 1-3 categories through SecurityOptions.
+    own_ki / peer_ki = the KEXINITs advertised in the previous exchange, agreed = its snapshot.
+    Returns a JSON-able description of what was changed."""
+    done = []
+    for kind in kinds:
+        field = KIND_FIELD[kind]
+        own = [n for n in own_ki[field] if not negotiate.is_marker(n) and n in KNOWN[kind]]
+        peer = [n for n in peer_ki[field] if not negotiate.is_marker(n) and n in KNOWN[kind]]
+        cur = agreed.get(field) if agreed else None
+        dis = set(cfg.disabled.get(kind, ()))
+        usable = KNOWN[kind]
+        if kind == "keys" and t.server_mode and rng.random() < 0.9:
+            usable = [n for n in KNOWN[kind] if n in t.server_key_dict]  # algorithms it has a key for
+        r = rng.random()
+        if r < 0.30 and len(own) > 1:
+            mode = "reordered"
+            new = list(own)
+            for _ in range(5):
+                rng.shuffle(new)
+                if new != own:
+                    break
+            if cur in new and new[0] == cur and rng.random() < 0.7:  # demote what is in use
+                new.remove(cur)
+                new.append(cur)
+        elif r < 0.55 and len(own) > 1:
+            mode = "narrowed"
+            pool = [n for n in own if n != cur] if rng.random() < 0.7 else list(own)
+            if not any(n in peer for n in pool):
+                pool = list(own)
+            mutual = [n for n in pool if n in peer]
+            new = rng.sample(pool, rng.randint(1, len(pool)))
+            if mutual and not any(n in peer for n in new):
+                new.insert(rng.randint(0, len(new)), rng.choice(mutual))
+        elif r < 0.96:
+            mode = "replaced (overlapping with the peer, without the algorithm in use)"
+            cand = [n for n in usable if n != cur and n not in dis]
+            bridge = [n for n in cand if n in peer]
+            new = rng.sample(cand, rng.randint(1, len(cand))) if cand else []
+            if bridge and not any(n in peer for n in new):
+                new.insert(rng.randint(0, len(new)), rng.choice(bridge))
+            elif not bridge and cur is not None and cur not in dis:
+                new.insert(rng.randint(0, len(new)), cur)  # the peer offers nothing else
+            if not new:
+                new = list(own)
+                mode = "unchanged (no alternative)"
+        else:
+            mode = "replaced (disjoint from the peer)"
+            new = [n for n in KNOWN[kind] if n not in peer]
+            rng.shuffle(new)
+            if not new:
+                new = list(reversed(own))
+                mode = "reversed"
+        setattr(t.get_security_options(), SECOPT_ATTR[kind], tuple(new))
+        ctx.count("prefs_changed_%s_%s" % (kind, side))
+        done.append(dict(side=side, kind=kind, mode=mode, new=new))
+    return done
 
 
 def agree_check(ctx, already_judged_ok, csnap, cexc, ssnap, sexc, wit):
@@ -467,17 +582,7 @@ def stratum_handshakes(ctx, n, time_cap):
             time.sleep(0.01)
         finally:
             p.close()
-        sides = {}
-        for side, role, cfg in (("c", "client", cc), ("s", "server", sc)):
-            outs = [e["payload"] for e in p.msgs(side, "out", [20])]
-            ins = [e["payload"] for e in p.msgs(side, "in", [20])]
-            sides[side] = []
-            for k, (snap, exc) in enumerate(list(logs[side])):
-                if k >= len(outs) or k >= len(ins):
-                    ctx.count("handshake_parse_without_tap_record")
-                    continue
-                ok = judge(ctx, role, cfg, outs[k], ins[k], snap, exc, "handshake")
-                sides[side].append((ok, snap, exc))
+        sides = judge_live_exchanges(ctx, p, logs, cc, sc, "handshake")
         ctx.case(("hs", repr(cc.describe()), repr(sc.describe())),
                  sample=dict(kind="full-handshake", client=cc.describe(), server=sc.describe(), completed=completed,
                              client_observed=[s for _, s, _ in sides["c"]], server_observed=[s for _, s, _ in sides["s"]],
@@ -496,6 +601,261 @@ def stratum_handshakes(ctx, n, time_cap):
                 ctx.count("handshake_failed_after_agreement")
 
 
+def judge_live_exchanges(ctx, p, logs, cc, sc, stratum):
+    """Judge every _parse_kex_init each live peer ran against the KEXINITs its own tap saw for that
+    exchange. -> {side: [(ok, snapshot, exception, expectation)]}"""
+    sides = {}
+    for side, role, cfg in (("c", "client", cc), ("s", "server", sc)):
+        outs = [e["payload"] for e in p.msgs(side, "out", [20])]
+        ins = [e["payload"] for e in p.msgs(side, "in", [20])]
+        sides[side] = []
+        for k, (snap, exc) in enumerate(list(logs[side])):
+            if k >= len(outs) or k >= len(ins):
+                ctx.count("handshake_parse_without_tap_record")
+                continue
+            ok = judge(ctx, role, cfg, outs[k], ins[k], snap, exc, stratum)
+            sides[side].append((ok, snap, exc))
+    return sides
+
+
+# parameters an installed cipher/MAC must have, by algorithm name (RFC 4253/4344/5647/6668 facts)
+MAC_SIZE = {"hmac-sha1": 20, "hmac-sha1-96": 12, "hmac-sha2-256": 32, "hmac-sha2-512": 64, "hmac-md5": 16,
+            "hmac-md5-96": 12, "hmac-sha2-256-etm@openssh.com": 32, "hmac-sha2-512-etm@openssh.com": 64}
+
+
+def expected_params(cipher, mac):
+    aead = "gcm@" in cipher
+    return dict(block_size=8 if cipher.startswith("3des") else 16, aead=aead,
+                etm=(not aead) and mac.endswith("-etm@openssh.com"), mac_size=16 if aead else MAC_SIZE.get(mac))
+
+
+def wire_strings(raw, count):
+    off, out = 1, []
+    for _ in range(count):
+        n = int.from_bytes(raw[off:off + 4], "big")
+        out.append(raw[off + 4:off + 4 + n])
+        off += 4 + n
+    return out
+
+
+def judge_installed(ctx, p, role, side, cfg, alog, k, wit):
+    """What the peer had in place when it switched keys in exchange k, against the oracle's
+    expectation for exchange k (only called when the parse-time snapshot matched the oracle)."""
+    outs = [e["payload"] for e in p.msgs(side, "out", [20])]
+    ins = [e["payload"] for e in p.msgs(side, "in", [20])]
+    lk, rk = negotiate.parse_kexinit(outs[k]), negotiate.parse_kexinit(ins[k])
+    exp = negotiate.expect(lk, rk) if role == "client" else negotiate.expect(rk, lk)
+    ok = True
+    for direction in ("out", "in"):
+        acts = [a for a in alog if a[0] == direction]
+        if k >= len(acts):
+            ctx.count("activation_not_observed")
+            continue
+        snap = acts[k][1]
+        ctx.count("key_activations_compared")
+        for cat, attr in ATTR[role].items():
+            if not attr.startswith("local_" if direction == "out" else "remote_") and not (direction == "out" and cat == "key"):
+                continue
+            if snap[cat] != exp[cat]:
+                ok = False
+                ctx.violation("%s %s: algorithm in place at key activation is not the one negotiated in this exchange"
+                              % (role, cat), "%s switched keys in exchange #%d with %s=%r, the first-mutual choice "
+                              "of that exchange's KEXINITs is %r" % (role, k, cat, snap[cat], exp[cat]),
+                              dict(wit, exchange=k, direction=direction, at_activation=snap, expected=exp))
+        if direction == "out" and snap["kex"] != exp["kex"]:
+            ok = False
+            ctx.violation("%s kex: engine in place at key activation is not the one negotiated in this exchange" % role,
+                          "%s finished exchange #%d with %r, negotiated %r" % (role, k, snap["kex"], exp["kex"]),
+                          dict(wit, exchange=k, at_activation=snap, expected=exp))
+        keys = [e for e in p.rec.snapshot() if e.get("kind") == "keys" and e["side"] == side and e["dir"] == direction]
+        if k < len(keys):
+            c2s = (role == "client") == (direction == "out")
+            want = expected_params(exp["c2s_cipher" if c2s else "s2c_cipher"], exp["c2s_mac" if c2s else "s2c_mac"])
+            got = {f: keys[k].get(f) for f in want}
+            ctx.count("installed_cipher_parameters_compared")
+            if got != want:
+                ok = False
+                ctx.violation("%s %sbound: installed cipher/MAC parameters do not match the negotiated algorithms"
+                              % (role, direction), "exchange #%d: packetizer got %r, the negotiated algorithms need %r"
+                              % (k, got, want), dict(wit, exchange=k, expected=exp))
+    if role == "server" and not any("+cert" in n for n in cfg.key_names):
+        # the host key and signature the server actually put into its kex reply
+        seg, n = [], -1
+        for e in p.msgs("s", "out"):
+            if e["type"] == 20:
+                n += 1
+            elif n == k:
+                seg.append(e)
+        rtype = 33 if exp["kex"].startswith(GEX_PREFIX) else 31
+        reply = [e for e in seg if e["type"] == rtype]
+        if reply:
+            ks, _, sig = wire_strings(reply[0]["payload"], 3)
+            blob_type = wire_strings(b"\0" + ks, 1)[0].decode("ascii", "replace")
+            sig_alg = wire_strings(b"\0" + sig, 1)[0].decode("ascii", "replace")
+            want_alg = base_key_name(exp["key"])
+            want_blob = "ssh-rsa" if want_alg.startswith("rsa-sha2-") else want_alg
+            ctx.count("kex_reply_host_keys_compared")
+            if blob_type != want_blob or sig_alg != want_alg:
+                ok = False
+                ctx.violation("server: kex reply carries a host key/signature of another algorithm than negotiated",
+                              "exchange #%d negotiated %r, the reply has a %r key signed with %r"
+                              % (k, exp["key"], blob_type, sig_alg), dict(wit, exchange=k, expected=exp))
+    return ok
+
+
+def hook_activate(t, role, alog):
+    for direction, name in (("out", "_activate_outbound"), ("in", "_activate_inbound")):
+        def wrap(orig, direction=direction):
+            def w(*a, **kw):
+                alog.append((direction, snapshot(t, role)))
+                return orig(*a, **kw)
+            return w
+        setattr(t, name, wrap(getattr(t, name)))
+
+
+def compatible_configs(rng, tries=40):
+    """Client/server configurations whose first exchange has a common algorithm everywhere."""
+    for _ in range(tries):
+        cc, sc = Cfg(rng, "client", True), Cfg(rng, "server", True)
+        if len(sc.key_names) < 2 and rng.random() < 0.8:
+            continue
+        ck = negotiate.parse_kexinit(advertise(cc.transport()))
+        sk = negotiate.parse_kexinit(advertise(sc.transport()))
+        if all(v is not None for v in negotiate.expect(ck, sk).values()):
+            return cc, sc
+    return None, None
+
+
+def echo(cch, sch, tag, timeout=60):
+    for a, b, msg in ((cch, sch, b"c2s:" + tag), (sch, cch, b"s2c:" + tag)):
+        a.settimeout(timeout)
+        b.settimeout(timeout)
+        a.sendall(msg)
+        got = b""
+        while len(got) < len(msg):
+            chunk = b.recv(len(msg) - len(got))
+            if not chunk:
+                return False
+            got += chunk
+        if got != msg:
+            return False
+    return True
+
+
+def stratum_rekey_changed_prefs(ctx, n, time_cap):
+    """Live pairs: exchange with preference set A, change preferences through SecurityOptions on one
+    or both peers, re-exchange 1-3 times (either side initiating), traffic after every exchange."""
+    import threading
+    from vf import pair as vpair
+
+    rng = ctx.rng
+    end = time.time() + time_cap
+    for i in range(n):
+        if time.time() > end:
+            ctx.count("rekey_stratum_time_capped")
+            break
+        if ctx.violations and i >= 3:
+            ctx.count("rekey_stratum_cut_short_after_violation")
+            break
+        cc, sc = compatible_configs(rng)
+        if cc is None:
+            ctx.count("rekey_stratum_no_compatible_config")
+            continue
+        p = vpair.Pair(rng=rng, client_kw=cc.kwargs(), server_kw=sc.kwargs(), host_keys=sc.host_keys())
+        for t, cfg in ((p.tc, cc), (p.ts, sc)):
+            for kind, names in cfg.prefs.items():
+                setattr(t, "_preferred_" + kind, tuple(names))
+            t.banner_timeout = t.handshake_timeout = 60
+        p.ts._modulus_pack = kexbench.modulus_pack() if sc.pack else None
+        logs = {"c": [], "s": []}
+        alogs = {"c": [], "s": []}
+        for side, t, role in (("c", p.tc, "client"), ("s", p.ts, "server")):
+            hook_parse(t, role, logs[side])
+            hook_activate(t, role, alogs[side])
+        rounds_done = 0
+        traffic_ok = []
+        died = None
+        try:
+            if not p.start(timeout=90):
+                ctx.count("rekey_stratum_initial_handshake_failed")
+            else:
+                p.auth()
+                cch, sch = p.session(timeout=60)
+                traffic_ok.append(echo(cch, sch, b"0"))
+                for rnd in range(rng.randint(1, 3)):
+                    couts = p.msgs("c", "out", [20])
+                    souts = p.msgs("s", "out", [20])
+                    cki = negotiate.parse_kexinit(couts[-1]["payload"])
+                    ski = negotiate.parse_kexinit(souts[-1]["payload"])
+                    ckinds, skinds = pick_kinds(rng, rng.choice(("c", "s", "cs")))
+                    changes = change_prefs(ctx, rng, p.tc, cc, cki, ski, logs["c"][-1][0], "client", ckinds)
+                    changes += change_prefs(ctx, rng, p.ts, sc, ski, cki, logs["s"][-1][0], "server", skinds)
+                    cc.changes.append(changes)
+                    sc.changes.append(changes)
+                    initiator = rng.choice((p.tc, p.ts))
+                    ctx.count("live_rekeys_initiated_by_%s" % ("server" if initiator is p.ts else "client"))
+                    want = len(logs["c"]) + 1
+                    err = []
+
+                    def rekey(t=initiator):
+                        try:
+                            t.renegotiate_keys()
+                        except Exception as e:
+                            err.append(e)
+
+                    th = threading.Thread(target=rekey, daemon=True)
+                    th.start()
+                    th.join(120)
+                    if th.is_alive():
+                        ctx.count("rekey_not_finished")
+                        break
+                    vpair.wait_for(lambda: (len(logs["c"]) >= want and len(logs["s"]) >= want
+                                            and p.tc.local_kex_init is None and p.ts.local_kex_init is None)
+                                   or not p.tc.is_active() or not p.ts.is_active(), 60)
+                    if err or not p.tc.is_active() or not p.ts.is_active():
+                        died = repr(err[0]) if err else repr(p.tc.saved_exception or p.ts.saved_exception)
+                        break
+                    rounds_done += 1
+                    ctx.count("live_rekeys_after_pref_change_completed")
+                    try:
+                        traffic_ok.append(echo(cch, sch, b"%d" % (rnd + 1)))
+                    except Exception as e:
+                        traffic_ok.append(False)
+                        died = "traffic after re-exchange: " + repr(e)
+                        break
+        except Exception as e:
+            died = died or "harness/session error: " + repr(e)
+            ctx.count("rekey_stratum_case_aborted")
+        finally:
+            p.close()
+        sides = judge_live_exchanges(ctx, p, logs, cc, sc, "rekey")
+        wit = dict(client=cc.describe(), server=sc.describe(), died=died, traffic_ok=traffic_ok)
+        ctx.case(("rekey", repr(cc.describe()), repr(sc.describe())),
+                 sample=dict(kind="live re-exchange after preference change", client=cc.describe(),
+                             server=sc.describe(), rounds_completed=rounds_done, traffic_ok=traffic_ok, died=died,
+                             client_observed=[x[1] for x in sides["c"]], server_observed=[x[1] for x in sides["s"]])
+                 if i < 1 else None)
+        ctx.count("rekey_stratum_pairs_run")
+        all_ok = True
+        for k, ((ok1, cs, ce), (ok2, ss, se)) in enumerate(zip(sides["c"], sides["s"])):
+            agree_check(ctx, ok1 and ok2, cs, ce, ss, se, wit)
+            all_ok = all_ok and ok1 and ok2
+            if ok1 and ok2 and cs is not None and ss is not None:
+                if k > 0:
+                    ctx.count("live_reexchanges_agreed_and_judged")
+                    for cat in CATS:
+                        if cs[cat] != sides["c"][k - 1][1][cat]:
+                            ctx.count("live_reexchange_agreement_changed_%s" % cat)
+                for side, role, cfg in (("c", "client", cc), ("s", "server", sc)):
+                    all_ok = judge_installed(ctx, p, role, side, cfg, alogs[side], k, wit) and all_ok
+        agreed_everywhere = all_ok and all(x[1] is not None for x in sides["c"] + sides["s"])
+        if agreed_everywhere and len(sides["c"]) > 1 and (died or not all(traffic_ok)):
+            # every exchange was negotiated as the oracle expects on both peers, yet the session broke
+            ctx.violation("session broke after a re-exchange although both peers negotiated the expected algorithms",
+                          "after changing preferences and re-keying, the connection died or traffic stopped (%s)" % died,
+                          wit)
+
+
 def hook_parse(t, role, log):
     orig = t._parse_kex_init
 
@@ -512,9 +872,10 @@ def hook_parse(t, role, log):
 
 def run(ctx):
     kexbench.modulus_pack()
-    stratum_crafted(ctx, ctx.pick(3000, 18000))
-    stratum_honest(ctx, ctx.pick(1000, 6000))
-    stratum_handshakes(ctx, ctx.pick(18, 36), ctx.pick(300, 1500))
+    stratum_crafted(ctx, ctx.pick(3000, 14000))
+    stratum_honest(ctx, ctx.pick(1000, 5000))
+    stratum_handshakes(ctx, ctx.pick(14, 28), ctx.pick(300, 1500))
+    stratum_rekey_changed_prefs(ctx, ctx.pick(6, 14), ctx.pick(300, 1500))
     ctx.require("negotiations_judged", ctx.pick(5000, 50000))
     ctx.require("negotiations_judged_crafted_client", 500)
     ctx.require("negotiations_judged_crafted_server", 500)
@@ -526,3 +887,18 @@ def run(ctx):
     ctx.require("incompatible_peer_expected_and_seen", 300)
     ctx.require("handshakes_completed", 20)
     ctx.require("peer_agreement_checks", 500)
+    # re-exchanges after a preference change
+    ctx.require("renegotiations_threadless_after_pref_change", ctx.pick(500, 5000))
+    for kind in SECOPT_ATTR:
+        for side in ("client", "server"):
+            ctx.require("prefs_changed_%s_%s" % (kind, side), 100)
+    for cat in ("kex", "key", "c2s_cipher", "s2c_cipher", "c2s_mac", "s2c_mac", "c2s_comp", "s2c_comp"):
+        ctx.require("reexchange_agreement_changed_%s" % cat, 50)
+        ctx.require("live_reexchange_agreement_changed_%s" % cat, 3)
+    ctx.require("live_rekeys_after_pref_change_completed", 20)
+    ctx.require("live_reexchanges_agreed_and_judged", 20)
+    ctx.require("live_rekeys_initiated_by_client", 8)
+    ctx.require("live_rekeys_initiated_by_server", 8)
+    ctx.require("key_activations_compared", 100)
+    ctx.require("installed_cipher_parameters_compared", 100)
+    ctx.require("kex_reply_host_keys_compared", 30)
